@@ -355,6 +355,11 @@ class Sim:
                 raise ValueError(k)
         except (LookupError, ValueError, TypeError, AttributeError) as e:      # rejected by the real code
             return "error", "error", None
+        for v in range(1, self.n + 1):
+            # reading the display order refreshes the manager's change-detection hash. Without it the pinned
+            # remove_triggers leaves the hash stale (remove a trigger, add the same object again, remove -> ValueError):
+            # a display-order matter (C07), kept out of this check
+            _ = self.tm(v).trigger_display_order
         obs = "ok " + self.state()
         if viol is None:
             d = self.check_disjoint()
